@@ -1,41 +1,109 @@
 (* C18 - Results are a pure function of the arguments, whatever the access history.
 
-   Model: Model/History.v (caller-owned dicts edited in place + per-object lazy caches;
-   operations = build an object on a dict, read a property; the in-place edit is the explicit
-   step [do_shim]; CubeSet inflation of responses; augment_response), Model/Shim.v (what the
-   edit of a transforms dict does).
-   Only statements here; each closed by [exact <lemma>] + Print Assumptions.
+   Model: Model/History.v (caller-owned transforms dicts and responses shared by several objects +
+   per-object lazy caches; operations = build an object on shared arguments, read a property),
+   Model/Shim.v (the translation of a transforms dict, the annotation of the response's dimension
+   dicts).  Only statements here; each closed by [exact <lemma>] + Print Assumptions.
 
-   The history theorems are proved by induction over ARBITRARY operation lists (fold_left step).
-   The inductions force hypotheses on the HISTORY; the real code violates each of them on some
-   history, recorded as open findings with the *_refuted witnesses below (replayed on the
-   implementation by harness/props/c18.py):
+   STATUS.  The four defects this property found were REPAIRED in /repo and the model follows the
+   repaired code:
+     H2  51c19c01  translating a dimension's transforms no longer rewrites the caller's dict
+                   (known_findings.d/C18-transforms-dict-shared-across-dimensions.json, fixed)
+     H3  3e9f35f8  Cube.inflate no longer edits the caller's response
+                   (known_findings.d/C18-inflate-mutates-response.json, fixed)
+     H4  502c5e20  Cube.augment_response no longer edits the caller's response
+                   (known_findings.d/C18-augment-mutates-response.json, fixed)
+     H5  537d2a70  a CubeSet augments filter cubes against the PARSED summary response
+                   (known_findings.d/C18-augment-summary-text-or-envelope.json, fixed)
+   (H1, translate_element_id(None), was repaired earlier: C18_shim_total.)
 
-     H2  a transforms dict is only ever used with one array dimension.  Otherwise the second
-         cube's references are resolved against the FIRST cube's aliases
-         (known_findings.d/C18-transforms-dict-shared-across-dimensions.json).
-     H3  the responses of a numeric-measure CubeSet (>= 2 responses, first one 0-D) are used by
-         that CubeSet only: Cube.inflate inserts a rows dimension into the caller's response
-         (known_findings.d/C18-inflate-mutates-response.json).
-     H4  the response of a single-filter-column cube that augment_response had to pad is used by
-         that CubeSet only (known_findings.d/C18-augment-mutates-response.json).
-   (H1 of the plan - re-translation of None is total - was a genuine defect, REPAIRED in /repo:
-   it is now the theorems C18_shim_total / C18_shim_fixed and no hypothesis.)
+   THE THEOREM (C18_history_pure, and its three parts C18_reads_pure / C18_response_reads_pure /
+   C18_augment_reads_pure): for EVERY list of operations - build a Cube / CubeSet / partition object
+   on shared caller-owned argument objects, read property p of object o - every read equals the read
+   on pristine copies, with per-object lazy caches that never cache None, and the caller-owned
+   objects are the pristine ones afterwards.  Side conditions: NONE on the history (one transforms
+   dict may be used with any number of different dimensions; the responses of a numeric-measure
+   CubeSet or of an augmented CubeSet may be used by anything else), none on the transforms dicts
+   (stale ids, nulls, malformed ids, translations that raise), none on the dimensions (the former
+   conditions "no item is aliased 'key'" and "element / sub-variable ids are not null" are gone:
+   they were needed for the re-translation of an already rewritten dict to be a fixed point, and
+   nothing is re-translated any more).  The generic theorem C18_reads_pure_generic only asks that
+   the equality test on property names is sound.  The former hypotheses H2 / H3 / H4 and the
+   no-raise condition of C18_augment_stable are dropped; the former *_refuted theorems are replaced
+   by *_former_witness theorems showing the old counter-example histories are now pure.
+
+   What stays edited in place: the response's DIMENSION dicts gain "subvar_alias" /
+   "datetime_value" keys.  That annotation is idempotent and the element ids do not depend on
+   whether it was made before (C18_shim_dict_idem, C18_element_ids_history_free).
+
+   The idempotence theorems of the translation ITSELF (C18_shim_xf_idem: shim (shim t) = shim t,
+   C18_elements_idem, C18_resolve_shim_invariant, C18_shim_fixed, C18_augment_idem) are kept: they
+   are still true of shim_xf / augment as FUNCTIONS, and they are what made the former in-place
+   design work for the histories it did work for; the purity theorem no longer rests on them.
 
    PARTIAL (stated, not proved here): the composition of the transforms history with the numeric
-   measures (the theorem speaks about everything a partition reads from the shimmed transforms -
-   per-element payloads and the items each id list mentions - which is all that flows from the
-   edited dict into the measures); datetime dimensions (their idempotence is C19_datetime_idem);
-   numeric-array measures in CubeSets (inflate leaves the caller's response alone there; tied by
-   the relational oracle only). *)
+   measures (the theorem speaks about everything a partition reads from the translated transforms -
+   per-element payloads and the items each id list mentions); datetime dimensions (their translation
+   is C19_datetime_*; tied by the relational oracle and the deep-equality leg); numeric-array
+   measures in CubeSets (inflate passes the caller's response on unchanged; tied by the relational
+   oracle and the deep-equality leg only). *)
 From Coq Require Import ZArith List Bool Lia Arith String.
 From CC Require Import Base.Ident Model.Shim Model.History Proofs.ShimSpec Proofs.ShimSlots
-  Proofs.HistoryProofs Proofs.HistoryArray Proofs.HistorySets.
+  Proofs.HistoryProofs Proofs.HistoryArray Proofs.HistorySets Proofs.HistoryTop.
 Import ListNotations.
 Local Open Scope nat_scope.
 Local Open Scope string_scope.
 
-(* ---- the edits are idempotent -------------------------------------------------------------- *)
+(* ---- the top-level theorem ------------------------------------------------------------------- *)
+Theorem C18_history_pure :
+  (forall (ts : nat -> xf) (ops : list (op adim aprop)),
+     arun ts ops = arun_pristine ts ops /\ forall i, arun_dict ts ops i = ts i) /\
+  (forall (r0 : nat -> nat) (ops : list rop),
+     rrun r0 ops = rrun_pristine r0 ops /\ rrun_state r0 ops = r0) /\
+  (forall (s f0 : aresp) (ops : list aop),
+     a_run s f0 ops = a_run_pristine s f0 ops /\ a_run_state s f0 ops = f0).
+Proof. exact history_pure. Qed.
+Print Assumptions C18_history_pure.
+
+(* ---- transforms dicts ------------------------------------------------------------------------ *)
+(* generic in the dimension type D, the dict content X, the properties P and values V, for ANY
+   translation [shim] (raising or not, idempotent or not) and ANY way [cons] of computing values
+   from the translated dict; by induction over arbitrary operation lists *)
+Theorem C18_reads_pure_generic
+  (D X P V : Type) (shim : D -> X -> X * option exn) (cons : D -> X -> P -> V)
+  (P_eqb : P -> P -> bool) (cacheable : V -> bool)
+  (P_eqb_sound : forall a b, P_eqb a b = true -> a = b)
+  (ts : nat -> X) :
+  forall ops,
+  run D X P V shim cons P_eqb cacheable ts ops = run_pristine D X P V shim cons ts ops.
+Proof. exact (reads_pure D X P V shim cons P_eqb cacheable P_eqb_sound ts). Qed.
+Print Assumptions C18_reads_pure_generic.
+
+Theorem C18_dicts_unchanged_generic
+  (D X P V : Type) (shim : D -> X -> X * option exn) (cons : D -> X -> P -> V)
+  (P_eqb : P -> P -> bool) (cacheable : V -> bool) (ts : nat -> X) :
+  forall ops, s_dicts (final D X P V shim cons P_eqb cacheable ts ops) = ts.
+Proof. exact (dicts_unchanged D X P V shim cons P_eqb cacheable ts). Qed.
+Print Assumptions C18_dicts_unchanged_generic.
+
+(* for array dimensions: every read of every history over shared transforms dicts equals the read
+   on pristine copies - no hypothesis (formerly: H2 + conditions on the dimensions) *)
+Theorem C18_reads_pure (ts : nat -> xf) ops : arun ts ops = arun_pristine ts ops.
+Proof. exact (array_reads_pure ts ops). Qed.
+Print Assumptions C18_reads_pure.
+
+(* the caller's transforms dicts after any history are the pristine ones *)
+Theorem C18_dicts_unchanged (ts : nat -> xf) ops i : arun_dict ts ops i = ts i.
+Proof. exact (array_dicts_unchanged ts ops i). Qed.
+Print Assumptions C18_dicts_unchanged.
+
+(* a translation that raises has produced no dict: all there is is the caller's, untouched (the
+   former model returned the half-rewritten dict here) *)
+Theorem C18_shim_raise_untouched d t ex : snd (shim_xf d t) = Some ex -> fst (shim_xf d t) = t.
+Proof. exact (shim_xf_raise_untouched d t ex). Qed.
+Print Assumptions C18_shim_raise_untouched.
+
+(* ---- the translation itself is idempotent (kept; no longer needed for purity) ------------------ *)
 (* shim (shim t) = shim t for EVERY transforms dict t (stale ids, nulls and malformed ids
    included), on every dimension whose element / sub-variable ids are not null and that has no
    item aliased "key" *)
@@ -50,7 +118,7 @@ Theorem C18_elements_idem d e e' :
 Proof. exact (replaced_elements_idem d e e'). Qed.
 Print Assumptions C18_elements_idem.
 
-(* every consumer reads the same from the rewritten dict and from its re-shimmed version *)
+(* every consumer reads the same from the translated dict and from its re-translated version *)
 Theorem C18_resolve_shim_invariant d t :
   ~ In key_str (aliases d) -> ids_not_none d ->
   consume d (fst (shim_xf d (fst (shim_xf d t)))) = consume d (fst (shim_xf d t)).
@@ -62,37 +130,6 @@ Theorem C18_wf_ids_not_none d : wf d -> ids_not_none d.
 Proof. exact (Proofs.ShimTranslate.wf_ids_not_none d). Qed.
 Print Assumptions C18_wf_ids_not_none.
 
-(* the response's dimension dict: "subvar_alias" fields *)
-Theorem C18_shim_dict_idem els : shim_dim_dict (shim_dim_dict els) = shim_dim_dict els.
-Proof. exact (shim_dim_dict_idem els). Qed.
-Print Assumptions C18_shim_dict_idem.
-
-Theorem C18_element_ids_history_free els :
-  map build_element_id (shim_dim_dict els) = map (fun p => alias_of (fst p)) els.
-Proof. exact (element_ids_after_shim els). Qed.
-Print Assumptions C18_element_ids_history_free.
-
-(* ---- the history theorem ------------------------------------------------------------------- *)
-(* generic in the dimension type D, the dict content X, the properties P and values V, for ANY
-   in-place edit [shim] and ANY way [cons] of computing values from the dict *)
-Theorem C18_reads_pure_generic
-  (D X P V : Type) (shim : D -> X -> X * option exn) (cons : D -> X -> P -> V)
-  (P_eqb : P -> P -> bool) (cacheable : V -> bool)
-  (P_eqb_sound : forall a b, P_eqb a b = true -> a = b)
-  (ts : nat -> X) (used : nat -> Prop) (dimof : nat -> D) :
-  (forall i, used i -> snd (shim (dimof i) (ts i)) = None) ->
-  (forall i, used i -> shim (dimof i) (fst (shim (dimof i) (ts i))) = (fst (shim (dimof i) (ts i)), None)) ->
-  forall ops, Forall (op_ok D P used dimof) ops ->
-  run D X P V shim cons P_eqb cacheable ts ops = run_pristine D X P V shim cons ts ops.
-Proof. exact (reads_pure D X P V shim cons P_eqb cacheable P_eqb_sound ts used dimof). Qed.
-Print Assumptions C18_reads_pure_generic.
-
-(* for array dimensions: every read of every history over shared transforms dicts equals the
-   read on pristine copies.  The former hypothesis H1 (re-translation is total) is no longer
-   needed: since the repair of translate_element_id(None) it is a theorem (C18_shim_total,
-   C18_shim_fixed) for every transforms dict whatsoever - stale ids, nulls, malformed ids
-   included.  What remains are conditions on the DIMENSIONS (no item is aliased "key"; element ids
-   and sub-variable ids are not null) and H2. *)
 Theorem C18_shim_total d t : ~ In INone (raw_ids d) -> snd (shim_xf d t) = None.
 Proof. exact (shim_xf_total d t). Qed.
 Print Assumptions C18_shim_total.
@@ -103,15 +140,17 @@ Theorem C18_shim_fixed d t :
 Proof. exact (shim_xf_fixed d t). Qed.
 Print Assumptions C18_shim_fixed.
 
-Theorem C18_reads_pure (ts : nat -> xf) (used : nat -> Prop) (dimof : nat -> adim) ops :
-  (forall i, used i -> ~ In key_str (aliases (dimof i))) ->
-  (forall i, used i -> ids_not_none (dimof i)) ->
-  Forall (aop_ok used dimof) ops ->                                          (* H2 *)
-  arun ts ops = arun_pristine ts ops.
-Proof. exact (array_reads_pure ts used dimof ops). Qed.
-Print Assumptions C18_reads_pure.
+(* ---- the response's dimension dict: the in-place annotation that stays -------------------------- *)
+Theorem C18_shim_dict_idem els : shim_dim_dict (shim_dim_dict els) = shim_dim_dict els.
+Proof. exact (shim_dim_dict_idem els). Qed.
+Print Assumptions C18_shim_dict_idem.
 
-(* ---- the remaining hypotheses are necessary: witnesses (open findings) ---------------------- *)
+Theorem C18_element_ids_history_free els :
+  map build_element_id (shim_dim_dict els) = map (fun p => alias_of (fst p)) els.
+Proof. exact (element_ids_after_shim els). Qed.
+Print Assumptions C18_element_ids_history_free.
+
+(* ---- former witnesses: transforms ------------------------------------------------------------- *)
 Definition dA : adim :=
   mk_adim [ mk_item (IInt 1) (Some (IStr "0001")) (Some (IStr "a1")) false false;
             mk_item (IInt 2) (Some (IStr "0002")) (Some (IStr "a2")) false false ] false.
@@ -119,66 +158,78 @@ Definition dB : adim :=
   mk_adim [ mk_item (IInt 1) (Some (IStr "0001")) (Some (IStr "b1")) false false;
             mk_item (IInt 2) (Some (IStr "0002")) (Some (IStr "b2")) false false ] false.
 
-(* the history that refuted H1 before the repair (explicit order [2, 999], two partitions on the
-   same dict) is now pure *)
-Example C18_former_H1_witness_pure :
+(* the history that refuted H1 before the repair of translate_element_id(None) (explicit order
+   [2, 999], two partitions on the same dict): pure, and the caller's dict keeps its stale id *)
+Theorem C18_reads_pure_H1_former_witness :
   let t0 := mk_xf None (Some [IInt 2; IInt 999]) None None in
   let ops := [New dA 0; New dA 0; Read 0 POrder; Read 1 POrder] in
   arun (fun _ => t0) ops = [Ok (VItems [1]); Ok (VItems [1])] /\
   arun_pristine (fun _ => t0) ops = [Ok (VItems [1]); Ok (VItems [1])] /\
-  arun_dict (fun _ => t0) ops 0 = mk_xf None (Some [IStr "a2"; INone]) None None.
+  arun_dict (fun _ => t0) ops 0 = t0 /\
+  arun_shims (fun _ => t0) ops = [Some (mk_xf None (Some [IStr "a2"; INone]) None None);
+                                  Some (mk_xf None (Some [IStr "a2"; INone]) None None)].
 Proof. vm_compute. repeat split; reflexivity. Qed.
+Print Assumptions C18_reads_pure_H1_former_witness.
 
-(* H2 violated: one dict, two cubes with different array dimensions: {"1": hide} hides item 0 of
-   each cube on pristine copies; after the first cube rewrote the key to ITS alias the second cube
-   finds nothing *)
-Theorem C18_reads_pure_H2_refuted :
-  exists (t0 : xf) (ops : list (op adim aprop)),
-    ~ In key_str (aliases dA) /\ ids_not_none dA /\ ~ In key_str (aliases dB) /\ ids_not_none dB /\
-    arun (fun _ => t0) ops = [Ok (VElems [Some (Payload 0); None]); Ok (VElems [None; None])] /\
-    arun_pristine (fun _ => t0) ops =
-      [Ok (VElems [Some (Payload 0); None]); Ok (VElems [Some (Payload 0); None])].
-Proof.
-  exists (mk_xf (Some [(IStr "1", Payload 0)]) None None None).
-  exists [New dA 0; New dB 0; Read 0 PElems; Read 1 PElems].
-  unfold ids_not_none. vm_compute. repeat split; try reflexivity; intros H; intuition discriminate.
-Qed.
-Print Assumptions C18_reads_pure_H2_refuted.
+(* the history that refuted H2 (C18_reads_pure_H2_refuted): one dict, two cubes with different
+   array dimensions, {"1": hide}.  Formerly the first cube rewrote the key to ITS alias and the
+   second cube found nothing; now each cube translates the caller's pristine dict into a dict of
+   its own and item 0 of EACH cube is hidden, as on pristine copies *)
+Theorem C18_reads_pure_H2_former_witness :
+  let t0 := mk_xf (Some [(IStr "1", Payload 0)]) None None None in
+  let ops := [New dA 0; New dB 0; Read 0 PElems; Read 1 PElems] in
+  arun (fun _ => t0) ops =
+    [Ok (VElems [Some (Payload 0); None]); Ok (VElems [Some (Payload 0); None])] /\
+  arun_pristine (fun _ => t0) ops =
+    [Ok (VElems [Some (Payload 0); None]); Ok (VElems [Some (Payload 0); None])] /\
+  arun_dict (fun _ => t0) ops 0 = t0 /\
+  arun_shims (fun _ => t0) ops = [Some (mk_xf (Some [(IStr "a1", Payload 0)]) None None None);
+                                  Some (mk_xf (Some [(IStr "b1", Payload 0)]) None None None)].
+Proof. vm_compute. repeat split; reflexivity. Qed.
+Print Assumptions C18_reads_pure_H2_former_witness.
 
 (* ---- responses: CubeSet inflation ---------------------------------------------------------------- *)
-(* re-using the responses of a CubeSet for the same CubeSet is safe (second inflation is skipped) *)
+(* THE CubeSet history theorem: every list of MkCube / MkSet operations (formerly under H3: the
+   responses of a numeric-measure set are used by that set only) *)
+Theorem C18_response_reads_pure r0 ops : rrun r0 ops = rrun_pristine r0 ops.
+Proof. exact (response_reads_pure r0 ops). Qed.
+Print Assumptions C18_response_reads_pure.
+
+Theorem C18_responses_unchanged r0 ops : rrun_state r0 ops = r0.
+Proof. exact (rrun_state_unchanged r0 ops). Qed.
+Print Assumptions C18_responses_unchanged.
+
+(* the one history the former design made safe (the second inflation was skipped) *)
 Theorem C18_inflate_stable r0 l :
   rrun r0 [MkSet l; MkSet l] = rrun_pristine r0 [MkSet l; MkSet l].
 Proof. exact (inflate_stable r0 l). Qed.
 Print Assumptions C18_inflate_stable.
 
-(* THE CubeSet history theorem, by induction over arbitrary op lists (numeric-measure sets
-   included, any number of times, interleaved with anything that shares no response with them) *)
-Theorem C18_response_reads_pure r0 ops :
-  groups_ok r0 ops ->                                                          (* H3 *)
-  rrun r0 ops = rrun_pristine r0 ops.
-Proof. exact (response_reads_pure_groups r0 ops). Qed.
-Print Assumptions C18_response_reads_pure.
-
-(* histories without any numeric-measure set satisfy H3 *)
-Theorem C18_no_numeric_set_ok r0 ops : Forall (rop_ok r0) ops -> groups_ok r0 ops.
-Proof. exact (rop_ok_groups r0 ops). Qed.
-Print Assumptions C18_no_numeric_set_ok.
-
-(* H3 violated: CubeSet over a 0-D and a 1-D response, then a Cube on the first response alone:
-   a strand where pristine copies give a nub; and a second CubeSet sharing the 0-D response with
-   another 1-D response: a strand where pristine copies give a 1 x N slice *)
-Theorem C18_inflate_H3_refuted :
-  exists (r0 : nat -> nat) (ops : list rop),
-    rrun r0 ops = [[Strand; Slice]; [Strand]; [Strand; Strand]] /\
-    rrun_pristine r0 ops = [[Strand; Slice]; [Nub]; [Strand; Slice]].
-Proof.
-  exists (fun i => if Nat.eqb i 0 then 0 else 1). exists [MkSet [0; 1]; MkCube 0; MkSet [0; 2]].
-  vm_compute. split; reflexivity.
-Qed.
-Print Assumptions C18_inflate_H3_refuted.
+(* the history that refuted H3 (C18_inflate_H3_refuted): CubeSet over a 0-D and a 1-D response, a
+   Cube on the 0-D response alone, a second CubeSet sharing the 0-D response.  Formerly
+   [[Strand; Slice]; [Strand]; [Strand; Strand]]; now a nub and a 1 x N slice as on pristine copies,
+   and the 0-D response still has no dimension dict *)
+Theorem C18_inflate_H3_former_witness :
+  let r0 := fun i => if Nat.eqb i 0 then 0 else 1 in
+  let ops := [MkSet [0; 1]; MkCube 0; MkSet [0; 2]] in
+  rrun r0 ops = [[Strand; Slice]; [Nub]; [Strand; Slice]] /\
+  rrun_pristine r0 ops = [[Strand; Slice]; [Nub]; [Strand; Slice]] /\
+  rrun_state r0 ops 0 = 0 /\ rrun_state r0 ops 1 = 1.
+Proof. vm_compute. repeat split; reflexivity. Qed.
+Print Assumptions C18_inflate_H3_former_witness.
 
 (* ---- responses: augment_response ---------------------------------------------------------------- *)
+(* THE augment history theorem: every list of CubeSet([s, f]) / Cube(f) operations (formerly: the
+   same CubeSet n times, provided data[pos] = value does not raise) *)
+Theorem C18_augment_reads_pure s f0 ops : a_run s f0 ops = a_run_pristine s f0 ops.
+Proof. exact (a_reads_pure s f0 ops). Qed.
+Print Assumptions C18_augment_reads_pure.
+
+Theorem C18_augment_response_unchanged s f0 ops : a_run_state s f0 ops = f0.
+Proof. exact (a_run_state_unchanged s f0 ops). Qed.
+Print Assumptions C18_augment_response_unchanged.
+
+(* the padding as a function is still idempotent and length-normalising (kept) *)
 Theorem C18_augment_idem f s f' : augment f s = Some f' -> augment f' s = Some f'.
 Proof. exact (augment_idem f s f'). Qed.
 Print Assumptions C18_augment_idem.
@@ -188,45 +239,39 @@ Theorem C18_augment_length f s f' :
 Proof. exact (augment_length f s f'). Qed.
 Print Assumptions C18_augment_length.
 
-(* the same CubeSet any number of times over the same (summary, filter) responses *)
 Theorem C18_augment_stable s f0 n :
-  augment f0 s <> None ->                      (* data[pos] = value does not raise *)
   a_run s f0 (repeat ASet n) = a_run_pristine s f0 (repeat ASet n).
 Proof. exact (aset_reads_pure s f0 n). Qed.
 Print Assumptions C18_augment_stable.
 
-(* no padding needed (as many counts as the summary cube): every history is pure *)
-Theorem C18_augment_not_needed_pure s f0 ops :
-  List.length (a_counts f0) = List.length (a_counts s) -> a_run s f0 ops = a_run_pristine s f0 ops.
-Proof. exact (a_noaug_reads_pure s f0 ops). Qed.
-Print Assumptions C18_augment_not_needed_pure.
-
-(* the hypothesis is needed: summary ids that are not positions (malformed: zz9 numbers text
-   elements 0..n-1) make the first CubeSet raise IndexError AFTER the filter response's elements
-   were replaced; the second attempt then "succeeds" on the half-edited response *)
-Example C18_augment_raise_half_edit :
+(* the history behind the former no-raise condition (C18_augment_raise_half_edit): summary ids that
+   are not positions make the CubeSet raise IndexError.  Formerly the filter response's elements
+   had been replaced by then and the second attempt "succeeded" on the half-edited response; now it
+   raises again, as on pristine copies, and the filter response is untouched *)
+Theorem C18_augment_raise_former_witness :
   let s := mk_aresp [6; 7; 0]%Z [(IInt 0, Some (IStr "A")); (IInt 5, Some (IStr "B")); (IInt (-1), None)] in
   let f0 := mk_aresp [4]%Z [(IInt 0, Some (IStr "B"))] in
   augment f0 s = None /\
-  a_run s f0 [ASet; ASet] = [None; Some [4; 0; 0]%Z] /\ a_run_pristine s f0 [ASet; ASet] = [None; None].
+  a_run s f0 [ASet; ASet] = [None; None] /\ a_run_pristine s f0 [ASet; ASet] = [None; None] /\
+  a_run_state s f0 [ASet; ASet] = f0.
 Proof. vm_compute. repeat split; reflexivity. Qed.
+Print Assumptions C18_augment_raise_former_witness.
 
-(* H4 violated: summary A,B,C,D (+ missing), filter cube B,D (+ missing): after the CubeSet a Cube
-   on the filter response alone reports the padded counts *)
-Theorem C18_augment_H4_refuted :
-  exists (s f0 : aresp) (ops : list aop),
-    a_run s f0 ops = [Some [0; 2; 0; 1; 0]; Some [0; 2; 0; 1; 0]]%Z /\
-    a_run_pristine s f0 ops = [Some [0; 2; 0; 1; 0]; Some [2; 1; 0]]%Z.
-Proof.
-  exists (mk_aresp [1; 2; 3; 4; 0]%Z
+(* the history that refuted H4 (C18_augment_H4_refuted): summary A,B,C,D (+ missing), filter cube
+   B,D (+ missing), a CubeSet then a Cube on the filter response alone.  Formerly the Cube reported
+   the padded counts [0; 2; 0; 1; 0]; now its own [2; 1; 0] *)
+Theorem C18_augment_H4_former_witness :
+  let s := mk_aresp [1; 2; 3; 4; 0]%Z
             [(IInt 0, Some (IStr "A")); (IInt 1, Some (IStr "B")); (IInt 2, Some (IStr "C"));
-             (IInt 3, Some (IStr "D")); (IInt (-1), None)]).
-  exists (mk_aresp [2; 1; 0]%Z [(IInt 0, Some (IStr "B")); (IInt 1, Some (IStr "D")); (IInt (-1), None)]).
-  exists [ASet; ACube]. vm_compute. split; reflexivity.
-Qed.
-Print Assumptions C18_augment_H4_refuted.
+             (IInt 3, Some (IStr "D")); (IInt (-1), None)] in
+  let f0 := mk_aresp [2; 1; 0]%Z [(IInt 0, Some (IStr "B")); (IInt 1, Some (IStr "D")); (IInt (-1), None)] in
+  a_run s f0 [ASet; ACube] = [Some [0; 2; 0; 1; 0]; Some [2; 1; 0]]%Z /\
+  a_run_pristine s f0 [ASet; ACube] = [Some [0; 2; 0; 1; 0]; Some [2; 1; 0]]%Z /\
+  a_run_state s f0 [ASet; ACube] = f0.
+Proof. vm_compute. repeat split; reflexivity. Qed.
+Print Assumptions C18_augment_H4_former_witness.
 
-(* JSON text, dict, and the {"value": ...} envelope give the same response *)
+(* ---- JSON text, dict, and the {"value": ...} envelope give the same response --------------------- *)
 Theorem C18_envelope_agree (R : Type) (r : R) :
   cube_response (ArgDict (JResp r)) = JResp r /\
   cube_response (ArgText (JResp r)) = JResp r /\
@@ -235,46 +280,64 @@ Theorem C18_envelope_agree (R : Type) (r : R) :
 Proof. exact (envelope_agree r). Qed.
 Print Assumptions C18_envelope_agree.
 
+(* ... also as the summary response a CubeSet augments its filter cubes against (formerly the raw
+   first argument: JSON text / envelope raised TypeError / KeyError, finding H5) *)
+Theorem C18_summary_forms_agree (R : Type) (r : R) (rest : list (rarg R)) :
+  set_summary (ArgDict (JResp r) :: rest) = Some (JResp r) /\
+  set_summary (ArgText (JResp r) :: rest) = Some (JResp r) /\
+  set_summary (ArgDict (JEnvelope (JResp r)) :: rest) = Some (JResp r) /\
+  set_summary (ArgText (JEnvelope (JResp r)) :: rest) = Some (JResp r).
+Proof. exact (summary_forms_agree r rest). Qed.
+Print Assumptions C18_summary_forms_agree.
+
 (* ---- non-vacuity -------------------------------------------------------------------------------- *)
-(* a history satisfying H1 and H2: three objects on two dicts, interleaved and repeated reads *)
+(* three objects on two dicts, interleaved and repeated reads; stale ids, a null and a stale key *)
 Example C18_example :
   let t0 := mk_xf (Some [(IStr "0002", Payload 3); (IStr "zz", Payload 4)])
                   (Some [IInt 2; IStr "stale"; IStr "a1"; INone]) (Some [IStr "1"; IInt 77]) None in
   let t1 := mk_xf None (Some [IStr "0001"]) None None in
   let ts := fun i => if Nat.eqb i 0 then t0 else t1 in
-  let ops := [New dA 0; New dA 1; New dA 0; Read 2 POrder; Read 0 PElems; Read 1 POrder;
+  let ops := [New dA 0; New dA 1; New dB 0; Read 2 POrder; Read 0 PElems; Read 1 POrder;
               Read 0 POrder; Read 2 PElems; Read 0 POrder; Read 2 PTop] in
-  ~ In key_str (aliases dA) /\ ids_not_none dA /\
   arun ts ops = arun_pristine ts ops /\
-  arun ts ops = [Ok (VItems [1; 0]); Ok (VElems [None; Some (Payload 3)]); Ok (VItems [0]);
+  arun ts ops = [Ok (VItems [1]); Ok (VElems [None; Some (Payload 3)]); Ok (VItems [0]);
                  Ok (VItems [1; 0]); Ok (VElems [None; Some (Payload 3)]); Ok (VItems [1; 0]);
                  Ok (VItems [0])] /\
-  (* the caller's dict 0 afterwards: stale ids and the null are None, the stale key is gone *)
-  arun_dict ts ops 0 = mk_xf (Some [(IStr "a2", Payload 3)])
-                             (Some [IStr "a2"; INone; IStr "a1"; INone]) (Some [IStr "a1"; INone]) None.
-Proof.
-  unfold ids_not_none. vm_compute. repeat split; try reflexivity; intros H; intuition discriminate.
-Qed.
+  (* the caller's dict 0 afterwards: as given *)
+  arun_dict ts ops 0 = t0 /\
+  (* what the objects hold: dict 0 translated to the aliases of dA (object 0) and of dB (object 2):
+     stale ids and the null are None, the stale key is gone *)
+  arun_shims ts ops =
+    [Some (mk_xf (Some [(IStr "a2", Payload 3)])
+                 (Some [IStr "a2"; INone; IStr "a1"; INone]) (Some [IStr "a1"; INone]) None);
+     Some (mk_xf None (Some [IStr "a1"]) None None);
+     Some (mk_xf (Some [(IStr "b2", Payload 3)])
+                 (Some [IStr "b2"; INone; INone; INone]) (Some [IStr "b1"; INone]) None)].
+Proof. vm_compute. repeat split; reflexivity. Qed.
 
-(* a CubeSet history satisfying H3: a numeric-measure set run three times, interleaved with cubes
-   and sets over OTHER responses (one of them 0-D as well) *)
+(* a translation that raises (an MR dimension with insertions whose element id is null: the
+   reference "None" equals str(id) and int("None") is attempted outside any try): the read raises
+   every time, as on pristine copies; nothing is cached, the caller's dict stays as given, and another
+   object on the same dict is not affected *)
+Example C18_example_raise :
+  let dN := mk_adim [ mk_item INone (Some (IStr "0001")) (Some (IStr "n1")) false false ] true in
+  let t0 := mk_xf None (Some [IStr "None"]) None None in
+  let ops := [New dN 0; Read 0 POrder; New dA 0; Read 0 POrder; Read 1 POrder] in
+  arun (fun _ => t0) ops = arun_pristine (fun _ => t0) ops /\
+  arun (fun _ => t0) ops = [Raise ValueErr; Raise ValueErr; Ok (VItems [])] /\
+  arun_dict (fun _ => t0) ops 0 = t0 /\
+  arun_shims (fun _ => t0) ops = [None; Some (mk_xf None (Some [INone]) None None)].
+Proof. vm_compute. repeat split; reflexivity. Qed.
+
+(* a CubeSet history: a numeric-measure set run three times, interleaved with cubes and sets that
+   SHARE its responses (formerly excluded by H3) *)
 Example C18_example_sets :
   let r0 := ndims_of [0; 1; 1; 2; 0; 1] in
-  let ops := [MkCube 3; MkSet [0; 1; 2]; MkCube 4; MkSet [3; 5]; MkSet [0; 1; 2]; MkSet [4];
-              MkSet [0; 1; 2]; MkCube 5] in
-  groups_ok r0 ops /\ numeric0 r0 (MkSet [0; 1; 2]) = true /\
+  let ops := [MkCube 3; MkSet [0; 1; 2]; MkCube 0; MkSet [0; 5]; MkSet [0; 1; 2]; MkSet [4];
+              MkSet [0; 1; 2]; MkCube 1; MkSet [1; 0]] in
+  numeric0 r0 (MkSet [0; 1; 2]) = true /\
   rrun r0 ops = rrun_pristine r0 ops /\
-  rrun r0 ops = [[Slice]; [Strand; Slice; Slice]; [Nub]; [Slice; Strand]; [Strand; Slice; Slice];
-                 [Nub]; [Strand; Slice; Slice]; [Strand]] /\
-  rrun_state r0 ops 0 = 1 /\ rrun_state r0 ops 4 = 0.
-Proof.
-  cbv zeta. split; [|vm_compute; repeat split; reflexivity].
-  split.
-  - intros x Hx N. simpl in Hx.
-    repeat (destruct Hx as [<-|Hx]; [try discriminate N; simpl; repeat constructor; simpl; intuition lia|]).
-    contradiction.
-  - intros x y Hx Hy N. simpl in Hx.
-    repeat (destruct Hx as [<-|Hx]; [try discriminate N|]); try contradiction;
-      simpl in Hy; repeat (destruct Hy as [<-|Hy]; [try (left; reflexivity); right; simpl; intuition lia|]);
-      contradiction.
-Qed.
+  rrun r0 ops = [[Slice]; [Strand; Slice; Slice]; [Nub]; [Strand; Slice]; [Strand; Slice; Slice];
+                 [Nub]; [Strand; Slice; Slice]; [Strand]; [Strand; Nub]] /\
+  rrun_state r0 ops 0 = 0 /\ rrun_state r0 ops 4 = 0.
+Proof. vm_compute. repeat split; reflexivity. Qed.
